@@ -160,7 +160,8 @@ impl<'a> Tokenizer<'a> {
         // LLVM can inline all of this and compile it down to fast iteration over bytes.
         let mut escaped = false;
         while !self.is_eof() && predicate(self.peek().unwrap(), escaped) {
-            escaped = self.bump() == Some('\\');
+            // a backslash that is itself escaped does not escape what follows
+            escaped = self.bump() == Some('\\') && !escaped;
         }
     }
 }
